@@ -285,4 +285,45 @@ example : ∃ l, classify [⟨"x", [], "Real", 0, []⟩, ⟨"u", ["input"], "Rea
         [.mk "Expression" "*" false [.mk "ComponentRef" "x" false [], .mk "ComponentRef" "u" false []]]]) = .ok l :=
   classify_isOk _ [⟨"x", ["state"], "Real", 0, []⟩, ⟨"u", ["input", "state"], "Real", 1, []⟩] _ (by decide) (by decide)
 
+/-- **nested_io_stripped.** For a symbol declared in a nested instance (non-empty instance
+    path) with each of `input` / `output` written at most once (all the grammar allows), the flat
+    symbol carries neither — whatever the kind of its type: elementary or a user-defined type
+    derived from one (`type Volt = Real(...)`).  Every other prefix (`parameter`, `constant`,
+    `discrete`, …) is kept, and a symbol of the flattened class itself keeps all its prefixes. -/
+theorem nested_io_stripped (inst : String) (kind : TypeKind) (p : List String)
+    (hi : p.count "input" ≤ 1) (ho : p.count "output" ≤ 1) :
+    (inst ≠ "" → "input" ∉ flatPrefixes inst kind p ∧ "output" ∉ flatPrefixes inst kind p ∧
+        ∀ x, x ≠ "input" → x ≠ "output" → (x ∈ flatPrefixes inst kind p ↔ x ∈ p)) ∧
+    (inst = "" → flatPrefixes inst kind p = p) := by
+  constructor
+  · intro h
+    simp only [flatPrefixes, h, if_false]
+    exact ⟨input_not_mem_stripNested p hi, output_not_mem_stripNested p ho, fun x h1 h2 => mem_stripNested_of_ne p x h1 h2⟩
+  · intro h; simp [flatPrefixes, h]
+
+example : flatPrefixes "c." .derived ["parameter", "input"] = ["parameter"] ∧
+    flatPrefixes "" .derived ["input"] = ["input"] ∧ flatPrefixes "a.b." .elementary ["output"] = [] := by decide
+
+/-- **input_output_only_at_top_level.** In the generated model a name is listed in `inputs`
+    (beyond the delay inputs) or in `outputs` only if some flat symbol of that name still carries
+    the prefix; so, with `nested_io_stripped`, a variable declared `input`/`output` inside a
+    component instance — of an elementary or of a derived type — is classified by its remaining
+    prefixes (parameter, constant, differentiated, algebraic) and never as a top-level input or an
+    output. -/
+theorem input_output_only_at_top_level (nd : Nat) (syms : List Sym) (l : Lists) (h : exitClass nd syms = some l)
+    (n : String) :
+    ((∀ s ∈ syms, s.name = n → "input" ∉ s.prefixes) → n ∉ l.inputs.drop nd) ∧
+    ((∀ s ∈ syms, s.name = n → "output" ∉ s.prefixes) → n ∉ l.outputs) := by
+  constructor
+  · intro hn hm
+    obtain ⟨s, hs, hname, _, _, _, hin⟩ := (precedence nd syms l h n).2.2.2.2.1.mp hm
+    exact hn s hs hname hin
+  · intro hn hm
+    obtain ⟨s, hs, hname, _, hout, _⟩ := (outputs_exact nd syms l h n).1.mp hm
+    exact hn s hs hname hout
+
+example : ∃ l, exitClass 0 [flatSym "c." .derived ⟨"u", ["input"], "Real", 0, []⟩,
+      flatSym "" .elementary ⟨"t", ["input"], "Real", 1, []⟩] = some l :=
+  exitClass_isSome _ _ (by decide)
+
 end PymocaVerif.Classify
